@@ -383,6 +383,9 @@ class CallMixin:
         h = getattr(self, "bi_" + name.replace(".", "_"), None)
         if h is None:
             raise Unsupported("builtin %s" % name)
+        if kwargs and name not in ("deque", "min", "max", "print", "wraps", "store"):
+            # never silently drop an argument that changes the meaning of the call
+            raise Unsupported("keyword arguments of builtin %s" % name)
         return h(args, kwargs, st, k)
 
     def bi_len(self, args, kwargs, st, k):
@@ -664,6 +667,17 @@ class CallMixin:
         raise Unsupported("list(%r)" % (v,))
 
     def bi_deque(self, args, kwargs, st, k):
+        if kwargs:
+            if set(kwargs) != {"maxlen"} or args:
+                raise Unsupported("deque(...) with these arguments")
+            mx = kwargs["maxlen"]
+            if not (isinstance(mx, PyConst) and mx.v is None):
+                # representation obligation: every sequence the contracts talk about is an unbounded sequence
+                # (append never evicts); a bounded deque is not such a value
+                self.emit(st, "type", "unbounded_sequence",
+                          "sequences under contract are unbounded (append never evicts): deque(maxlen=...) is not",
+                          z3.BoolVal(False))
+            return k(EmptyList("deque"), st)
         if not args:
             return k(EmptyList("deque"), st)
         raise Unsupported("deque(iterable)")
